@@ -482,14 +482,13 @@ class Visitor(ast.NodeVisitor):
         result = None  # type: Optional[Any]
 
         if node.id in self._name_to_value:
+            # The value of a variable may well be ``None``.
             result = self._name_to_value[node.id]
-
-        if result is None and hasattr(builtins, node.id):
+        elif hasattr(builtins, node.id):
             result = getattr(builtins, node.id)
-
-        if result is None and node.id != "None":
+        else:
             # The variable refers to a name local of the lambda (e.g., a target in the generator expression).
-            # Since we evaluate generator expressions with runtime compilation, None is returned here as a placeholder.
+            # Since we evaluate generator expressions with runtime compilation, a placeholder is returned here.
             return PLACEHOLDER
 
         self.recomputed_values[node] = result
